@@ -514,7 +514,7 @@ def _returns_to_assign(stmts, target):
     return out
 
 
-def inline_value_helpers(model, module, fn, names=None):
+def inline_value_helpers(model, module, fn, names=None, skip=()):
     """A copy of function node `fn` in which a statement `X = h(a, b, ...)` - h a module-level project function whose body is
     made of if / assignment / raise / return only - is replaced by h's body: parameters substituted by the arguments,
     `return V` turned into `X = V`, guard clauses turned into if/else chains, and the helper's local that is returned renamed
@@ -529,7 +529,7 @@ def inline_value_helpers(model, module, fn, names=None):
                     and isinstance(s_.value.func, ast.Name) and not s_.value.keywords and (names is None or s_.targets[0].id in names):
                 r_ = model.resolve_expr(module, s_.value.func)
                 h = model.functions.get(r_[0][1]) if r_ and r_[0] and r_[0][0] == "func" else None
-                if h is not None and h.node is not fn and h.cls is None:
+                if h is not None and h.node is not fn and h.cls is None and h.node.name not in skip:
                     ps = func_params(h.node)
                     if len(ps) == len(s_.value.args):
                         body = [b for b in h.node.body if not (isinstance(b, ast.Expr) and isinstance(b.value, ast.Constant))]
